@@ -469,3 +469,63 @@ example :
   decide +kernel
 
 end Props.C11
+
+namespace Props.C11
+open Cfi Cfi.Text Spec.C11
+
+/-- **Dates** obey the per-token law: the trimmed `strftime` text parses back, with
+the field's first format, to the truncation of the date to that format -/
+theorem tokLaw_date (f : Field) (fmt : List Char) (fmts : List (List Char)) (t : Cfi.Date.DT)
+    (hk : f.kind = .date (fmt :: fmts)) (hgeo : f.stop = f.size + f.start)
+    (hok : Spec.C03.fmtOk fmt = true)
+    (hv : (Spec.C01.truncDate fmt t).valid = true) (hy : 1000 ≤ (Spec.C01.truncDate fmt t).y)
+    (hhead : isStripWs (fmt.headD ' ') = false) (hlast : isStripWs (fmt.getLastD ' ') = false)
+    (hfit : ∀ p, Cfi.Date.strftime (fmt.length + 1) fmt t = some p → p.length ≤ f.size) :
+    ∃ r, TokLaw f (.date t) r := by
+  obtain ⟨r, ⟨h1, h2, _⟩, h3, _⟩ := Props.C01.law_date f fmt fmts t hk hgeo hok hv hy hhead hlast hfit
+  refine ⟨r, h1, h2, ?_⟩
+  have hp : parseText f.kind (strip r) = parseText f.kind r := by
+    simp only [parseText, hk, strip_idem]
+  rw [hp, h3]
+  simp [canonTok, Spec.C01.canon, hk]
+
+end Props.C11
+
+namespace Props.C11
+open Cfi Cfi.Text Spec.C11
+
+/-- the raw tokens of a written line: the newline stays on the last one -/
+theorem split_joined_line (d : List Char) (init : List (List Char)) (last : List Char) (hd : d ≠ [])
+    (hnl : ¬ '\n' ∈ d) (hfree : ∀ u ∈ init ++ [last], ∀ c ∈ u, ¬ c ∈ d) :
+    split (join d (init ++ [last]) ++ ['\n']) d = init ++ [last ++ ['\n']] := by
+  rw [join_snoc_append]
+  apply split_join d hd _ (by simp)
+  intro t ht c hc
+  rw [List.mem_append] at ht
+  rcases ht with ht | ht
+  · exact hfree t (by simp [ht]) c hc
+  · simp only [List.mem_singleton] at ht
+    subst ht
+    rw [List.mem_append] at hc
+    rcases hc with hc | hc
+    · exact hfree last (by simp) c hc
+    · simp only [List.mem_singleton] at hc; subst hc; exact hnl
+
+theorem mem_join (d : List Char) (ts : List (List Char)) (c : Char) (h : c ∈ join d ts) :
+    c ∈ d ∨ ∃ t ∈ ts, c ∈ t := by
+  induction ts with
+  | nil => simp [join] at h
+  | cons t ts ih =>
+    cases ts with
+    | nil => right; exact ⟨t, by simp, by simpa [join] using h⟩
+    | cons t2 ts =>
+      rw [join_cons_ne _ _ _ (by simp)] at h
+      simp only [List.mem_append] at h
+      rcases h with (h | h) | h
+      · right; exact ⟨t, by simp, h⟩
+      · left; exact h
+      · rcases ih h with h' | ⟨u, hu, hc⟩
+        · left; exact h'
+        · right; exact ⟨u, by simp [hu], hc⟩
+
+end Props.C11
